@@ -236,6 +236,13 @@ def _disjoint_or(ex, state, x, y):
         c = _pow2_multiple(p)
         if c > 1 and ex.prove_quick(state, z3.And(p >= 0, q >= 0, q < c), timeout_ms=2000):
             return p + q
+    # semantic variant for octets whose structure is hidden behind named (merged) terms: p a multiple of 2**k, q below
+    if ex.prove_quick(state, z3.And(x >= 0, x <= 255, y >= 0, y <= 255), timeout_ms=500):
+        for p, q in ((x, y), (y, x)):
+            for k in (7, 6, 5, 4, 3, 2, 1):
+                c = 1 << k
+                if ex.prove_quick(state, z3.And(p % c == 0, q < c), timeout_ms=300):
+                    return p + q
     return None
 
 
